@@ -212,8 +212,9 @@ storage_close(struct Storage* self)
     CHECK(self);
     storage_stop(self);
 
+    // The driver releases the device in close(): `self` must not be touched
+    // afterwards.
     driver_close_device(&self->device);
-    self->state = DeviceState_Closed;
 Error:;
 }
 
